@@ -186,7 +186,7 @@ func (m *recoveryMessage) AddPayload(p dbft.ConsensusPayload[util.Uint256]) {
 
 // GetPrepareRequest implements the payload.RecoveryMessage interface.
 func (m *recoveryMessage) GetPrepareRequest(p dbft.ConsensusPayload[util.Uint256], validators []dbft.PublicKey, primary uint16) dbft.ConsensusPayload[util.Uint256] {
-	if m.prepareRequest == nil {
+	if m.prepareRequest == nil || int(primary) >= len(validators) {
 		return nil
 	}
 
@@ -217,9 +217,13 @@ func (m *recoveryMessage) GetPrepareResponses(p dbft.ConsensusPayload[util.Uint2
 		return nil
 	}
 
-	ps := make([]dbft.ConsensusPayload[util.Uint256], len(m.preparationPayloads))
+	ps := make([]dbft.ConsensusPayload[util.Uint256], 0, len(m.preparationPayloads))
 
-	for i, resp := range m.preparationPayloads {
+	for _, resp := range m.preparationPayloads {
+		// The index comes from the wire.
+		if int(resp.ValidatorIndex) >= len(validators) {
+			continue
+		}
 		r := fromPayload(prepareResponseType, p.(*Payload), &prepareResponse{
 			preparationHash: *m.preparationHash,
 		})
@@ -228,7 +232,7 @@ func (m *recoveryMessage) GetPrepareResponses(p dbft.ConsensusPayload[util.Uint2
 		r.Witness.InvocationScript = resp.InvocationScript
 		r.Witness.VerificationScript = getVerificationScript(resp.ValidatorIndex, validators)
 
-		ps[i] = r
+		ps = append(ps, r)
 	}
 
 	return ps
@@ -236,9 +240,13 @@ func (m *recoveryMessage) GetPrepareResponses(p dbft.ConsensusPayload[util.Uint2
 
 // GetChangeViews implements the payload.RecoveryMessage interface.
 func (m *recoveryMessage) GetChangeViews(p dbft.ConsensusPayload[util.Uint256], validators []dbft.PublicKey) []dbft.ConsensusPayload[util.Uint256] {
-	ps := make([]dbft.ConsensusPayload[util.Uint256], len(m.changeViewPayloads))
+	ps := make([]dbft.ConsensusPayload[util.Uint256], 0, len(m.changeViewPayloads))
 
-	for i, cv := range m.changeViewPayloads {
+	for _, cv := range m.changeViewPayloads {
+		// The index comes from the wire.
+		if int(cv.ValidatorIndex) >= len(validators) {
+			continue
+		}
 		c := fromPayload(changeViewType, p.(*Payload), &changeView{
 			newViewNumber: cv.OriginalViewNumber + 1,
 			timestamp:     cv.Timestamp,
@@ -249,7 +257,7 @@ func (m *recoveryMessage) GetChangeViews(p dbft.ConsensusPayload[util.Uint256], 
 		c.Witness.InvocationScript = cv.InvocationScript
 		c.Witness.VerificationScript = getVerificationScript(cv.ValidatorIndex, validators)
 
-		ps[i] = c
+		ps = append(ps, c)
 	}
 
 	return ps
@@ -263,9 +271,13 @@ func (m *recoveryMessage) GetPreCommits(p dbft.ConsensusPayload[util.Uint256], v
 
 // GetCommits implements the payload.RecoveryMessage interface.
 func (m *recoveryMessage) GetCommits(p dbft.ConsensusPayload[util.Uint256], validators []dbft.PublicKey) []dbft.ConsensusPayload[util.Uint256] {
-	ps := make([]dbft.ConsensusPayload[util.Uint256], len(m.commitPayloads))
+	ps := make([]dbft.ConsensusPayload[util.Uint256], 0, len(m.commitPayloads))
 
-	for i, c := range m.commitPayloads {
+	for _, c := range m.commitPayloads {
+		// The index comes from the wire.
+		if int(c.ValidatorIndex) >= len(validators) {
+			continue
+		}
 		cc := fromPayload(commitType, p.(*Payload), &commit{signature: c.Signature})
 		// A committed node keeps Commits it has received in earlier views and
 		// relays them in its recovery messages, so the view of a Commit is the
@@ -276,7 +288,7 @@ func (m *recoveryMessage) GetCommits(p dbft.ConsensusPayload[util.Uint256], vali
 		cc.Witness.InvocationScript = c.InvocationScript
 		cc.Witness.VerificationScript = getVerificationScript(c.ValidatorIndex, validators)
 
-		ps[i] = cc
+		ps = append(ps, cc)
 	}
 
 	return ps
